@@ -14,7 +14,10 @@ os.makedirs(os.environ["VERIF_OUT"], exist_ok=True)
 
 ROOT = os.path.dirname(os.path.dirname(os.path.abspath(__file__)))
 SEEDED = os.path.join(ROOT, "seeded")
-REPO = "/repo"
+# through `vp run --with-repo` the checks build against (and the seeds are applied to) the snapshot of /repo's HEAD
+REPO = os.environ.get("VP_RUN_REPO") or "/repo"
+if REPO != "/repo":
+    subprocess.run(["sed", "-i", f's|path = "/repo"|path = "{REPO}"|', os.path.join(ROOT, "sim/Cargo.toml")])
 ALL = ["C%02d" % i for i in range(1, 19)]
 
 
@@ -44,15 +47,16 @@ def do_import(dirs):
 
 
 def do_run(ids, all_checks, tier):
-    if sh(f"git -C {REPO} status --porcelain --untracked-files=no")[1].strip():
-        print("refusing: /repo has uncommitted changes"); sys.exit(2)
+    is_git = os.path.isdir(os.path.join(REPO, ".git")) or os.path.isfile(os.path.join(REPO, ".git"))
+    if is_git and sh(f"git -C {REPO} status --porcelain --untracked-files=no")[1].strip():
+        print("refusing: the repo has uncommitted changes"); sys.exit(2)
     for sid in ids:
         d = os.path.join(SEEDED, sid)
         meta = json.load(open(os.path.join(d, "meta.json")))
         target = meta.get("property", sid.split("-")[0])
         det_path = os.path.join(d, "detection.json")
         det = json.load(open(det_path)) if os.path.exists(det_path) else {}
-        rc, out = sh(f"git -C {REPO} apply {d}/patch.diff")
+        rc, out = sh(f"git apply {d}/patch.diff", cwd=REPO)
         if rc != 0:
             print(f"{sid}: patch does not apply: {out[-200:]}"); continue
         try:
@@ -65,7 +69,10 @@ def do_run(ids, all_checks, tier):
                 det[p] = {"exit": rc, "caught": rc == 1 and "VIOLATION property=" in out, "classes": classes[:4], "first": first[:400], "wall_s": round(time.time() - t0, 1), "tier": tier}
                 print(f"{sid} {p}: {'CAUGHT' if det[p]['caught'] else ('missed' if rc == 0 else 'exit %d' % rc)} {classes[:2]}", flush=True)
         finally:
-            sh(f"git -C {REPO} checkout -- .")
+            if is_git:
+                sh(f"git -C {REPO} checkout -- . && git -C {REPO} clean -fdq src")
+            else:
+                sh(f"git apply -R {d}/patch.diff", cwd=REPO)
             for f in os.listdir(os.path.join(os.environ["VERIF_OUT"], "replays")) if os.path.isdir(os.path.join(os.environ["VERIF_OUT"], "replays")) else []:
                 os.remove(os.path.join(os.environ["VERIF_OUT"], "replays", f))
         json.dump(det, open(det_path, "w"), indent=1)
